@@ -9,7 +9,7 @@ Theorem C15_failure_blocks_and_changes_nothing :
     c_failure c = Some f -> single_data_op o = true -> v1_name_ok sdk (name_of o) = true ->
     (match o with OBatchGet _ _ => sdk = V2 | _ => True end) ->
     fst (step lm lu sdk c o) = c /\
-    o_res (snd (step lm lu sdk c o)) = RErr (match o with OTransact => ForcedFailure | _ => failure_err f end).
+    o_res (snd (step lm lu sdk c o)) = RErr (failure_err f).
 Proof. exact failure_blocks. Qed.
 
 Theorem C15_toggles_touch_only_the_flag :
